@@ -114,7 +114,7 @@ def check(ctx):
                 ctx.ob("F4", "%s a path that dispatches nothing leaves the carry alone" % cq, not sets and not muts,
                        where=where((sets + muts)[0]) if sets + muts else where(outer), function=framer_q, construct="%s/carry-modified-without-dispatch" % framer_q,
                        msg="the carry is modified on a path that dispatches no packet: bytes are dropped or duplicated")
-                ctx.ob("F6", "%s an iteration that dispatches nothing leaves the loop" % cq, bp.exit_kind() in ("break", "return"), where=where(outer),
+                ctx.ob("F6", "%s an iteration that dispatches nothing leaves the loop" % cq, bp.exit_kind() in ("break", "return", "raise"), where=where(outer),
                        function=framer_q, construct="%s/idle-iteration" % framer_q,
                        msg="an iteration that consumes nothing continues the loop (exit=%s): a decoded length can go stale or the loop spin" % bp.exit_kind())
                 continue
